@@ -110,6 +110,9 @@ def matches(entry, f):
         base = f.get("input", "").split("#")[0]
         if not any(base.startswith(x) for x in (pre if isinstance(pre, list) else [pre])):
             return False
+    rp = entry.get("rule_prefix")
+    if rp is not None and not any(f.get("rule", "").startswith(x) for x in (rp if isinstance(rp, list) else [rp])):
+        return False
     ic = entry.get("input_contains")
     if ic is not None and ic not in f.get("input", ""):
         return False
